@@ -76,8 +76,8 @@ def run(ctx):
     if ok:
         args = [str(binp), "-out", str(ctx.rundir), "-seed", str(ctx.seed),
                 "-corpus", str(V.VERIF / "corpus" / "C17")]
-        args += ["-nload", "140", "-nsweep", "150", "-nproj", "30", "-nreal", "3", "-grid", "3"] if quick else \
-                ["-nload", "1500", "-nsweep", "1500", "-nproj", "250", "-nreal", "40", "-grid", "4"]
+        args += ["-nload", "300", "-nsweep", "300", "-nproj", "60", "-nreal", "6", "-grid", "3", "-shards", "8"] if quick else \
+                ["-nload", "4000", "-nsweep", "4000", "-nproj", "700", "-nreal", "100", "-grid", "4", "-shards", "16"]
         if ctx.replay:
             rp = json.load(open(ctx.replay))
             cf = ctx.rundir / "replay_cases.json"
